@@ -189,21 +189,20 @@ fn m_settings_unknown_inserted() {
     }
 }
 
-// @h props=C14,C16 tier=quick t=1800 sub=settings-roundtrip
+// @h props=C14 tier=quick t=2400 mem=20 sub=settings-roundtrip
 // @fn wtransport-proto/src/settings.rs SettingsBuilder::{qpack_max_table_capacity,qpack_blocked_streams,enable_connect_protocol,enable_webtransport,enable_h3_datagrams,webtransport_max_sessions,build} Settings::{generate_frame_ref,with_frame,get}
-// @bound every subset of the six builder operations (symbolic choice), values: every varint for the three valued settings; destination capacity 0..=48
+// @bound every subset of the six builder operations (symbolic choice), values: every varint for QPACK_MAX_TABLE_CAPACITY, < 2^14 for QPACK_BLOCKED_STREAMS, < 64 for WEBTRANSPORT_MAX_SESSIONS; destination capacity 0..=48
 // @oracle generate_frame_ref is Err exactly when the destination is smaller than the reference size; payload decodes under the reference parser into distinct, non-reserved (id,value) pairs equal to what was built (C16); with_frame(generate_frame_ref()) yields the same map (C14). The allocating twin `generate_frame` (Vec growth under symbolic sizes timed out) is exercised on the concrete WebTransport profile by d_local_settings
 // @assume model map
 #[kani::proof]
-#[kani::unwind(14)]
+#[kani::unwind(9)]
 fn m_settings_roundtrip() {
     let pick: [bool; 6] = kani::any();
     let a: u64 = kani::any();
     let b: u64 = kani::any();
     let c: u64 = kani::any();
-    kani::assume(a <= VMAX && b <= VMAX && c <= VMAX);
-    // keep the encoded size within the 48-byte scratch: at most two 8-byte values
-    kani::assume(a < (1 << 30) || b < (1 << 30) || c < (1 << 30));
+    // values of every varint length for the first setting, 1- and 2-byte values for the other two (keeps the payload small)
+    kani::assume(a <= VMAX && b < (1 << 14) && c < (1 << 6));
     let mut bld = Settings::builder();
     if pick[0] {
         bld = bld.qpack_max_table_capacity(VarInt::try_from_u64(a).unwrap());
